@@ -297,6 +297,31 @@ static Verdict run_exh(const ExhCase &c) {
     }
     v.label("float_ramp_narrowed");
   }
+  // the direct-fill store: pixman_image_fill_rectangles(SRC, colour) encodes the colour itself when it takes its shortcut;
+  // the stored pixel must be the one the general store writes for the same colour (compositing a solid image), for every
+  // destination format, not only the plain 8888/565/a8 ones (seeded C10v)
+  if (v.ok && FORMATS[c.fmt].dst_ok && bpp(f) <= 32 && !is_indexed(f)) {
+    static const uint16_t LV[7] = {0x0000, 0xffff, 0x8000, 0x7fff, 0x1234, 0xfedc, 0x00ff};
+    for (int k = 0; k < 12 && v.ok; k++) {
+      pixman_color_t col = {LV[(k * 3 + 1) % 7], LV[(k * 5 + 2) % 7], LV[(k + 3) % 7], k < 8 ? (uint16_t)0xffff : LV[(k * 2) % 7]};
+      Bits b1 = gen_bits_fixed(c.fmt, 5, 2, 11);
+      b1.fill = FILL_RANDOM;
+      auto d1 = make_image(b1), d2 = make_image(b1);
+      pixman_rectangle16_t rc = {1, 0, 3, 2};
+      if (!pixman_image_fill_rectangles(PIXMAN_OP_SRC, d1->im, &col, 1, &rc)) v.fail(fmt("fill_rectangles(SRC) on %s returned FALSE", FORMATS[c.fmt].name));
+      pixman_image_t *solid = pixman_image_create_solid_fill(&col);
+      pixman_image_composite32(PIXMAN_OP_SRC, solid, nullptr, d2->im, 0, 0, 0, 0, 1, 0, 3, 2);
+      pixman_image_unref(solid);
+      uint32_t dm = defined_mask(f);
+      for (int y = 0; y < 2 && v.ok; y++)
+        for (int x = 0; x < 5 && v.ok; x++) {
+          uint32_t a = raw_get(d1->rowp(y), bpp(f), x) & dm, b = raw_get(d2->rowp(y), bpp(f), x) & dm;
+          if (a != b)
+            v.fail(fmt("fill_rectangles(SRC, r%04x g%04x b%04x a%04x) stores 0x%x in %s at (%d,%d), compositing the same solid stores 0x%x", col.red, col.green, col.blue, col.alpha, a, FORMATS[c.fmt].name, x, y, b));
+        }
+    }
+    v.label("direct_fill_store_checked");
+  }
   v.nontrivial = true;
   if (c.acc) v.label("accessors");
   return v;
